@@ -189,7 +189,7 @@ PIECES = ['', ' ', '  ', 'a', 'abc', 'x y', '"', "'", '<', '>', '&', '&amp;', '&
           '<!--', '-->', '<a b="c">', '\t', '\n', '\n\n', ' \n ', 'é', 'ß', ' ', ' ', '\u0085', ' ',
           '\U0001F600', '\U0010FFFF', '�', '퟿', '', '\U00010000', '\x7f', '\x20', '{"core": 4, "ram": 8}',
           '{"bdf": ["0000:41:00.0", "0000:41:00.1"]}', 'None', 'true', 'False', '0', '-1', ';', '#', '&#', '&;', '%', '\\',
-          '\\n', '\\r', '/', '=', 'd0', 'key', ':GraphNode:', '中文', 'абв']
+          '\\n', '\\r', '/', '=', 'd0', 'key', ':GraphNode:', '中文', 'абв', '<graphml', '<?xml version="1.0"?>', '{"directed": false, "nodes": [']
 CR_PIECES = ['\r', '\r\n', 'a\rb', '\n\r', '\r\r', ' \r']
 ILLEGAL_PIECES = ['\x0b', '\x0c', '\x1c', '\x1e', '\x00', '\x01', '\x1f', '\x08', '\ud800', '\udfff', '￾', '￿']
 INTS = [0, 1, -1, 7, 42, -7, 1000000, 10 ** 20, -(10 ** 19), 2 ** 63]
@@ -363,6 +363,39 @@ def gen_cross_case(rng):
             'peek': rng.random() < 0.3}
 
 
+CONFUSE = ['<graphml', '<?xml version="1.0"?>', '<?xml', '<graphml xmlns="http://graphml.graphdrawing.org/xmlns">',
+           '<?xml version=\'1.0\' encoding=\'utf-8\'?>\n<graphml>', '{"directed": false, "nodes": [', '{', '[', '{"directed": false, '
+           '"multigraph": false, "graph": {}, "nodes": [], "edges": []}', '</graphml>', ' <graphml', '{"id": 0}']
+
+
+def gen_confuse_case(rng, fmt=None, ep=None):
+    """format-confusing values: the literal opening of the OTHER format (the GraphML root tag / XML declaration in a
+    model serialized as JSON, the opening of a node-link JSON document in one serialized as GraphML) in properties of the
+    FIRST node - placed first in its dict so that they land in the head of the text -, in node ids and graph ids"""
+    gid = rng.choice(['g1', 'G-1', rng.choice(CONFUSE), rng.choice(CONFUSE) + 'x'])
+    g = gen_raw_graph(rng, gid, GOOD)
+    k0, d0 = g['nodes'][0]
+    front = {}
+    for name in rng.sample(['Name', 'BootScript', 'UserData', 'Details'], rng.choice([1, 2, 3])):
+        v = rng.choice(CONFUSE)
+        front[name] = v if rng.random() < 0.6 else v + gen_string(rng) if rng.random() < 0.5 else gen_string(rng) + v
+    if rng.random() < 0.5:
+        d0['NodeID'] = rng.choice(CONFUSE) + ('-0' if rng.random() < 0.5 else '')
+    d0.pop('Name', None), d0.pop('Details', None)
+    g['nodes'][0] = [k0, dict(front, **d0)]
+    if g['edges'] and rng.random() < 0.3:
+        g['edges'][0][2]['Name'] = rng.choice(CONFUSE)
+    pre = [[rng.random() < 0.6, gid, g]]
+    if not pre[0][0]:
+        for _, d in g['nodes']:
+            d['GraphID'] = gid
+    new = rng.choice([gid, 'new-graph', rng.choice(CONFUSE)])
+    watch = [gid] + ([new] if new != gid else [])
+    return {'kind': 'raw', 'profile': 'confuse', 'pre': pre, 'src': gid, 'raw': {'nodes': [], 'edges': []},
+            'fmt': rng.randrange(2) if fmt is None else fmt, 'ep': rng.randrange(4) if ep is None else ep, 'gid': new,
+            'watch': watch, 'topo': None, 'peek': False}
+
+
 def gen_refused_case(rng, fmt=None, ep=None):
     """a refused import (a node that is NOT the first one lacks NodeID; the nodes before it carry properties the next
     model does not have) under a fresh graph id, followed by the import of a serialized graph under another id"""
@@ -396,6 +429,8 @@ def gen_raw_case(rng):
         return gen_cross_case(rng)
     if r < 0.18:
         return gen_refused_case(rng)
+    if r < 0.25:
+        return gen_confuse_case(rng)
     pname, prof = pick_profile(rng)
     gid = rng.choice(['g1', 'G-1', 'a0b1', 'slice one', 'id&<>"', 'über', 'x'])
     pre = []
@@ -1089,6 +1124,7 @@ class RoundTrip(Stream, Run):
                     c['fmt'], c['ep'] = fmt, ep
                     out.append(c)
                 out.append(gen_refused_case(rng, fmt, ep))     # refused import, then each entry point, both formats
+                out.append(gen_confuse_case(rng, fmt, ep))     # the other format's opening in the head of the text
                 out.append(gen_cross_case(rng))
                 out[-1]['fmt'], out[-1]['ep'] = fmt, ep
         for _ in range(n_raw):
